@@ -239,7 +239,44 @@ unsafe fn record_attempt(mut a: Att) -> ssize_t {
     }
 }
 #[no_mangle]
+extern "C" {
+    fn __libc_malloc(size: size_t) -> *mut c_void;
+}
+/// requested sizes of recent small allocations: lets the send wrapper see a control buffer whose announced
+/// length exceeds its allocation (what CBMC's exact-size objects show in the model; glibc's chunk slack hides
+/// it from the kernel)
+static mut MLOG: [(usize, usize); 128] = [(0, 0); 128];
+static mut MLOG_I: usize = 0;
+#[no_mangle]
+pub unsafe extern "C" fn malloc(size: size_t) -> *mut c_void {
+    let p = __libc_malloc(size);
+    if size <= 4096 {
+        MLOG[MLOG_I % 128] = (p as usize, size);
+        MLOG_I += 1;
+    }
+    p
+}
+unsafe fn control_overread(msg: *const msghdr) -> bool {
+    let m = &*msg;
+    if m.msg_controllen == 0 {
+        return false;
+    }
+    let mut k = 0;
+    while k < 128 && k < MLOG_I {
+        let (p, sz) = MLOG[(MLOG_I - 1 - k) % 128];
+        if p == m.msg_control as usize {
+            return (m.msg_controllen as usize) > sz;
+        }
+        k += 1;
+    }
+    false
+}
+#[no_mangle]
 pub unsafe extern "C" fn sendmsg(fd: c_int, msg: *const msghdr, flags: c_int) -> ssize_t {
+    if S.on && control_overread(msg) {
+        println!("REPLAY-MEMORY: sendmsg is given msg_controllen larger than the allocation behind msg_control");
+        libc::abort();
+    }
     // the model refuses datagrams that cannot fit the (reported) send buffer before counting the
     // attempt; the real kernel decides that itself, after our gate.  Equivalent for every size the
     // crate can produce when the reported size is not larger than the real one.
@@ -378,6 +415,11 @@ pub unsafe extern "C" fn poll(fds: *mut libc::pollfd, n: libc::nfds_t, timeout: 
     if S.on {
         S.polls += 1;
         S.last_poll_timeout = timeout;
+        if POLL_EINTR_ONCE {
+            POLL_EINTR_ONCE = false;
+            set_errno(libc::EINTR);
+            return -1;
+        }
         // single-threaded replay: nothing can arrive during the wait, so a zero-time poll gives
         // the same answer as waiting `timeout` would
         let r = libc::syscall(libc::SYS_poll, fds, n as c_long, 0 as c_long) as c_int;
@@ -550,6 +592,10 @@ pub fn set_cur(p: u8) {
 }
 pub fn set_poll_times_out(b: bool) {
     unsafe { S.poll_times_out = b }
+}
+static mut POLL_EINTR_ONCE: bool = false;
+pub fn set_poll_eintr_once(b: bool) {
+    unsafe { POLL_EINTR_ONCE = b }
 }
 pub fn set_eintr_at(i: i32) {
     unsafe {
